@@ -374,7 +374,7 @@ pub fn build_all(dir: &str, gens: &BTreeMap<String, BTreeMap<String, String>>) -
             run(
                 Command::new("rustc")
                     .args([
-                        "--edition", "2021", "-A", "warnings", "-C", "opt-level=2",
+                        "--edition", "2021", "-A", "warnings", "-C", "opt-level=1",
                         "-C", &format!("debug-assertions={dbg}"), "-C", "overflow-checks=off",
                         "-C", "link-arg=driver.o", "--crate-name", out, "-o", out, "probe_main.rs",
                     ])
@@ -403,14 +403,17 @@ pub struct Job {
     pub args: Vec<String>,
     pub stdin: Option<Arc<String>>,
     pub tag: String,
+    /// may be skipped (result None) once the deadline has passed
+    pub optional: bool,
 }
 
 /// Run jobs on `workers` threads; returns stdout per job (same order). Any failing child is
-/// a machinery error.
-pub fn run_jobs(jobs: Vec<Job>, workers: usize) -> Result<Vec<String>, String> {
+/// a machinery error. Optional jobs that have not been started when `deadline` passes are
+/// skipped (None) — the caller reports the deepest completed bound.
+pub fn run_jobs(jobs: Vec<Job>, workers: usize, deadline: Option<std::time::Instant>) -> Result<Vec<Option<String>>, String> {
     let n = jobs.len();
     let queue: Arc<Mutex<VecDeque<(usize, Job)>>> = Arc::new(Mutex::new(jobs.into_iter().enumerate().collect()));
-    let results: Arc<Mutex<Vec<Option<Result<String, String>>>>> = Arc::new(Mutex::new((0..n).map(|_| None).collect()));
+    let results: Arc<Mutex<Vec<Option<Result<Option<String>, String>>>>> = Arc::new(Mutex::new((0..n).map(|_| None).collect()));
     let mut hs = Vec::new();
     for _ in 0..workers.max(1) {
         let q = queue.clone();
@@ -418,7 +421,8 @@ pub fn run_jobs(jobs: Vec<Job>, workers: usize) -> Result<Vec<String>, String> {
         hs.push(std::thread::spawn(move || loop {
             let next = q.lock().unwrap().pop_front();
             let Some((i, job)) = next else { break };
-            let res = run_one(&job);
+            let late = deadline.map_or(false, |d| std::time::Instant::now() >= d);
+            let res = if job.optional && late { Ok(None) } else { run_one(&job).map(Some) };
             r.lock().unwrap()[i] = Some(res);
         }));
     }
